@@ -16,7 +16,7 @@ FUNCTIONS = {
     'C10': ['Container.__init__', 'Container._self_add', 'Container._add', 'Container._transfer', 'Container.remove',
             'Container.fill_to', 'Container.get_volume', 'Container.get_concentration', 'PlateSlicer.get_volumes',
             'PlateSlicer.get_moles', 'PlateSlicer.get_substances', 'Plate.get_volumes', 'Plate.get_moles',
-            'Plate.get_substances'],
+            'Plate.get_substances', 'Plate.get_volume', 'Container.get_substances'],
     'C17': ['Container.remove', 'PlateSlicer.remove', 'Plate.remove', 'Slicer.apply'],
     'C07': ['Slicer.apply', 'Slicer.set', 'Slicer.get', 'Container._transfer_slice', 'PlateSlicer._transfer',
             'PlateSlicer.remove', 'PlateSlicer.fill_to', 'Plate.transfer', 'Plate.remove', 'Plate.fill_to',
